@@ -12,7 +12,7 @@
 (* Every reached registry state is emitted ("B") and rebuilt on the code.   *)
 (***************************************************************************)
 EXTENDS StrTypes, Json
-CONSTANTS MaxOps, Emit
+CONSTANTS MaxOps, Emit, Idempotent      \* Idempotent = FALSE: registration appends unconditionally (refuted: see harness)
 
 Acc == [sA |-> {}, sInt |-> {"IntString", "FloatString", "IsoTimeString"},
         sFlt |-> {"FloatString", "IsoTimeString"}, sExp |-> {"FloatString"},
@@ -29,9 +29,16 @@ vars == <<reg, ops, dt>>
 Init == reg = DefaultReg /\ ops = <<>> /\ dt = FALSE
 Disable(n) == /\ Len(ops) < MaxOps
               /\ reg' = RegRemoveByName(reg, n) /\ ops' = Append(ops, <<"disable", n>>) /\ UNCHANGED dt
-Datetime == /\ Len(ops) < MaxOps /\ ~dt
-            /\ reg' = RegDatetime(reg) /\ ops' = Append(ops, <<"datetime", "">>) /\ dt' = TRUE
-Next == Datetime \/ \E n \in Names : Disable(n)
+\* register_datetime_classes may be called again (a second --datetime run in one process did so)
+Datetime == /\ Len(ops) < MaxOps
+            /\ reg' = RegDatetimeW(reg, Idempotent) /\ ops' = Append(ops, <<"datetime", "">>) /\ dt' = TRUE
+\* StringSerializableRegistry.remove(cls): one class, by identity
+RemoveCls(c) == /\ Len(ops) < MaxOps /\ c \in ToSet(reg.types)
+             /\ reg' = RegRemove(reg, c) /\ ops' = Append(ops, <<"remove", c>>) /\ UNCHANGED dt
+Next == Datetime \/ (\E n \in Names : Disable(n)) \/ (\E c \in AllClasses : RemoveCls(c))
+\* a class that was removed and not registered again afterwards is not registered
+RemovedGone == \A i \in DOMAIN ops : (ops[i][1] = "remove" /\ \A j \in (i + 1)..Len(ops) : ops[j][1] # "datetime")
+                                        => ops[i][2] \notin ToSet(reg.types)
 Spec == Init /\ [][Next]_vars
 
 DetectOK == \A s \in DOMAIN Acc :
